@@ -145,7 +145,7 @@ func getFileRecords(store *transactionOnly, paths []string) ([]OpResult, error) 
 // findMissingDirs returns all paths that must be created, in reverse order
 func (fs *FS) findMissingDirs(name string) ([]string, error) {
 	if !hackpadfs.ValidPath(name) {
-		return nil, hackpadfs.ErrInvalid
+		return nil, &hackpadfs.PathError{Op: "mkdirall", Path: name, Err: hackpadfs.ErrInvalid}
 	}
 	const fsRootPath = "."
 	var paths []string
